@@ -964,6 +964,81 @@ theorem closure_delete_pivot_example :
   subst hu
   exact ⟨by decide, sl "cache1", by decide⟩
 
+theorem closed_dropUses (g : RefG) (p i : Str) (h : closedG g) : closedG (g.dropUses p i) :=
+  ⟨h.1, fun u hu => h.2 u (List.mem_filter.mp hu).1⟩
+
+/-- `closure_delete_slicer_part`: the first half of DeleteSlicer. When the slicer part is emptied,
+the worksheet entry, the slicer part and the worksheet relationship go together (the same three
+as DeleteTable, in another order); if that relationship was the only one at the slicer part and its
+id is used once, the closure holds afterwards. When slicers remain, nothing changes. -/
+theorem closure_delete_slicer_part (g : RefG) (sheet ridS slicerPart : Str) (emptied : Bool) (h : closedG g)
+    (honce : emptied = true → (sheet, ridS) ∉ g.uses.erase (sheet, ridS))
+    (honly : emptied = true → ∀ r ∈ g.rels, (r.1 ≠ slicerPart) ∧ (r.2.2 = slicerPart → r.1 = sheet ∧ r.2.1 = ridS))
+    (hnouse : emptied = true → ∀ u ∈ g.uses, u.1 ≠ slicerPart) :
+    closedG (g.deleteSlicer sheet ridS slicerPart emptied) := by
+  cases emptied with
+  | false => exact h
+  | true =>
+    -- part before relationship in the code; the two steps touch different fields
+    have e : g.deleteSlicer sheet ridS slicerPart true = g.deleteTable sheet ridS slicerPart := rfl
+    rw [e]
+    exact closure_delete_table g sheet ridS slicerPart h (honce rfl) (honly rfl) (hnouse rfl)
+
+/-- `closure_delete_slicer_cache`: the second half of DeleteSlicer. When no other slicer uses the
+cache, the cache part, the workbook relationship to it and EVERY workbook entry naming that id go
+together; if that relationship was the only one at the cache part, the closure holds afterwards —
+no "used once" hypothesis is needed, every use is removed. Otherwise nothing changes. -/
+theorem closure_delete_slicer_cache (g : RefG) (wb ridW cachePart : Str) (lastUser : Bool) (h : closedG g)
+    (honly : lastUser = true → ∀ r ∈ g.rels, (r.1 ≠ cachePart) ∧ (r.2.2 = cachePart → r.1 = wb ∧ r.2.1 = ridW))
+    (hnouse : lastUser = true → ∀ u ∈ g.uses, u.1 ≠ cachePart) :
+    closedG (g.deleteSlicerCache wb ridW cachePart lastUser) := by
+  cases lastUser with
+  | false => exact h
+  | true =>
+    have e : g.deleteSlicerCache wb ridW cachePart true = ((g.dropUses wb ridW).dropRel wb ridW).dropPart cachePart := rfl
+    rw [e]
+    have a := closed_dropUses g wb ridW h
+    have hnot : (wb, ridW) ∉ (g.dropUses wb ridW).uses := by
+      intro hm
+      have := (List.mem_filter.mp hm).2
+      simp at this
+    have b := closed_dropRel (g.dropUses wb ridW) wb ridW a hnot
+    apply closed_dropPart _ cachePart b
+    · intro r hr
+      obtain ⟨hm, hk⟩ := List.mem_filter.mp hr
+      obtain ⟨h1, h2⟩ := honly rfl r hm
+      refine ⟨h1, fun ht => ?_⟩
+      obtain ⟨e1, e2⟩ := h2 ht
+      simp [e1, e2] at hk
+    · intro u hu
+      exact hnouse rfl u (List.mem_filter.mp hu).1
+
+/-- `closure_delete_slicer`: DeleteSlicer as a whole (deleteSlicer, then deleteSlicerCache — order
+and skeletons are a regenerated fact), for every combination of "slicer part emptied" and "last
+user of the cache", with the hypotheses stated on the graph BEFORE the call. -/
+theorem closure_delete_slicer (g : RefG) (sheet ridS slicerPart wb ridW cachePart : Str) (emptied lastUser : Bool)
+    (h : closedG g)
+    (honce : emptied = true → (sheet, ridS) ∉ g.uses.erase (sheet, ridS))
+    (honlyS : emptied = true → ∀ r ∈ g.rels, (r.1 ≠ slicerPart) ∧ (r.2.2 = slicerPart → r.1 = sheet ∧ r.2.1 = ridS))
+    (hnouseS : emptied = true → ∀ u ∈ g.uses, u.1 ≠ slicerPart)
+    (honlyC : lastUser = true → ∀ r ∈ g.rels, (r.1 ≠ cachePart) ∧ (r.2.2 = cachePart → r.1 = wb ∧ r.2.1 = ridW))
+    (hnouseC : lastUser = true → ∀ u ∈ g.uses, u.1 ≠ cachePart) :
+    Facts.C05.deleteSlicerOrder = true ∧
+      closedG (g.deleteSlicerAll sheet ridS slicerPart wb ridW cachePart emptied lastUser) := by
+  refine ⟨by decide, ?_⟩
+  unfold RefG.deleteSlicerAll
+  have hr : ∀ r ∈ (g.deleteSlicer sheet ridS slicerPart emptied).rels, r ∈ g.rels := by
+    cases emptied with
+    | false => exact fun r hr => hr
+    | true => exact fun r hr => (List.mem_filter.mp hr).1
+  have hu : ∀ u ∈ (g.deleteSlicer sheet ridS slicerPart emptied).uses, u ∈ g.uses := by
+    cases emptied with
+    | false => exact fun u hu => hu
+    | true => exact fun u hu => List.mem_of_mem_erase hu
+  exact closure_delete_slicer_cache _ wb ridW cachePart lastUser
+    (closure_delete_slicer_part g sheet ridS slicerPart emptied h honce honlyS hnouseS)
+    (fun hl r hm => honlyC hl r (hr r hm)) (fun hl u hm => hnouseC hl u (hu u hm))
+
 /-! ## element order inside worksheets and chart sheets -/
 
 theorem stepOk_of_ltB {schema : List String} {a b : String} (h : ltB schema a b = true) : stepOk schema a b = true := by
